@@ -115,6 +115,9 @@ class Scenario:
         return self.report_groups
 
     def dir_arg(self):
+        """the target directory as main.rs resolves it: cwd joined with the (possibly relative, un-normalised) argument"""
+        if getattr(self, "dir_cli", None) and not self.dir_cli.startswith("/"):
+            return os.path.join(self.cwd, self.dir_cli)
         return os.path.join(self.base, self.move_dir)
 
     def describe(self):
@@ -213,7 +216,7 @@ def cmd_text(c):
 
 def cli_args(op, scn, no_lock=False):
     a = {"remove": ["remove"], "link": ["link"], "softlink": ["link", "--soft"], "dedupe": ["dedupe"],
-         "move": ["move", scn.dir_arg()]}[op]
+         "move": ["move", getattr(scn, "dir_cli", None) or scn.dir_arg()]}[op]
     return a + (["--no-lock"] if no_lock else [])
 
 
